@@ -93,7 +93,7 @@ static int mem_tok(struct instr *instr_buffer, char *mem, int opd_pos) {
  * Given an instance of @param instr_buffer convert a immediate string
  * representation @param imme into its equivalent unsigned long representation
  */
-static void imm_tok(struct instr *instr_buffer, char *imme) {
+static int imm_tok(struct instr *instr_buffer, char *imme) {
 
   size_t imme_str_len = strlen(imme);
   char *saved_saved = NULL;
@@ -110,7 +110,11 @@ static void imm_tok(struct instr *instr_buffer, char *imme) {
     instr_buffer->assembly_opt |= NASM_MOV_IMM;
   }
   // convert string to unsigned long for immediate representation
-  instr_buffer->cons = strtoul(imme, NULL, base);
+  char *end = NULL;
+  instr_buffer->cons = strtoul(imme, &end, base);
+  // the whole token must be a number
+  FAIL_IF_VAR(end == imme || *end != '\0', "invalid immediate: %s\n", imme);
+  return EXIT_SUCCESS;
 }
 
 /**
@@ -183,7 +187,7 @@ static int check_operand_type(struct instr *instr_buffer, char *all_opd,
   switch (instr_buffer->opd[opd_pos].type) {
   // convert immediate to unsigned long
   case 'i':
-    imm_tok(instr_buffer, all_opd);
+    FAIL_IF(imm_tok(instr_buffer, all_opd));
     if (strtok_r(NULL, "", &saved_opd) == NULL)
       return EXIT_SUCCESS;
     FAIL_IF_MSG(true, "cannot have an operand after immediate\n");
